@@ -502,4 +502,4 @@ SUBCHECKS = [
 # the same oracles in interpreters started with -O / -OO (see core.env_variant)
 from ..core import env_variant  # noqa: E402
 
-SUBCHECKS.append(env_variant(__name__, next(sc for sc in SUBCHECKS if sc.name == "diffuse_arrays")))
+SUBCHECKS.append(env_variant(__name__, next(sc for sc in SUBCHECKS if sc.name == "diffuse_arrays"), cases=(6, 10)))
